@@ -67,6 +67,7 @@ package safehtml
 
 //@ func URLSetSanitized(str string) (r URLSet)
 //@   serves C12 C08
+//@   option casesplit true
 //@   option uses C12.first_url C12.first_url_descriptor C12.next_url C12.next_url_descriptor C12.placeholder_is_canonical
 //@   ensures nonempty: len(r.str) > 0
 //@   ensures canonical: inlang(SrcsetCanon, r.str)
